@@ -168,3 +168,60 @@ Proof. split; [constructor|]. split; [reflexivity|]. cbn. lia. Qed.
 Definition admission_okb (limit : N) (admitted : list N) (refused : bool) : bool :=
   let n := lenN (uniq admitted) in
   ((limit =? 0) || (n <=? limit)) && (negb refused || (negb (limit =? 0) && (n =? limit))).
+
+(* ---- once the limit is reached the set of admitted combinations is frozen: a combination that is not admitted is never
+   routed again, whatever the interleaving — a refused combination stays refused ---- *)
+Lemma mstep_frozen limit s e s1 o :
+  0 < limit -> limit <= size s -> mstep limit s e = (s1, o) ->
+  batchers s1 = batchers s /\ size s1 = size s /\ (forall k, o = Routed k -> In k (batchers s)).
+Proof.
+  intros Hpos Hfull H. destruct e as [g k|g]; cbn [mstep] in H.
+  - destruct (mem k (batchers s)) eqn:E; injection H as <- <-; cbn [batchers size].
+    + split; [reflexivity|]. split; [reflexivity|]. intros k' Hk. injection Hk as <-. apply mem_In. exact E.
+    + split; [reflexivity|]. split; [reflexivity|]. discriminate.
+  - destruct (lookup g (missed s)) as [k|].
+    2:{ injection H as <- <-. split; [reflexivity|]. split; [reflexivity|]. discriminate. }
+    assert (El : negb (limit =? 0) && (limit <=? size s) = true).
+    { apply andb_true_iff. split; [apply negb_true_iff; apply N.eqb_neq; lia|apply N.leb_le; exact Hfull]. }
+    rewrite El in H. injection H as <- <-. cbn [batchers size]. split; [reflexivity|]. split; [reflexivity|]. discriminate.
+Qed.
+
+Theorem refused_stays_refused limit : forall evs s s1 os,
+  0 < limit -> limit <= size s -> mrun limit s evs = (s1, os) ->
+  batchers s1 = batchers s /\ forall k, In (Routed k) os -> In k (batchers s).
+Proof.
+  induction evs as [|e tl IH]; intros s s1 os Hpos Hfull H; cbn [mrun] in H.
+  - injection H as <- <-. split; [reflexivity|]. intros k [].
+  - destruct (mstep limit s e) as [sa o] eqn:E1. destruct (mrun limit sa tl) as [sb os'] eqn:E2. injection H as <- <-.
+    destruct (mstep_frozen limit s e sa o Hpos Hfull E1) as (Hb & Hs & Hr).
+    destruct (IH sa sb os' Hpos ltac:(rewrite Hs; exact Hfull) E2) as (Hb2 & Hr2).
+    split; [rewrite Hb2; exact Hb|]. intros k [Hk|Hk]; [apply Hr; exact Hk|]. rewrite <- Hb. apply Hr2. exact Hk.
+Qed.
+
+(* the seeded variant: LoadOrStore before the limit check — the refused combination is left in the map and the next
+   request with it is routed to a shard nobody started *)
+Definition mstep_store_first (limit : N) (s : mstate) (e : mev) : mstate * outcome :=
+  match e with
+  | FastLoad g k => mstep limit s e
+  | LockSection g =>
+      match lookup g (missed s) with
+      | None => (s, Pending)
+      | Some k =>
+          if mem k (batchers s) then ({| batchers := batchers s; size := size s; missed := remove_g g (missed s) |}, Routed k)
+          else if negb (limit =? 0) && (limit <=? size s)
+               then ({| batchers := batchers s ++ [k]; size := size s; missed := remove_g g (missed s) |}, Refused)
+               else ({| batchers := batchers s ++ [k]; size := size s + 1; missed := remove_g g (missed s) |}, Routed k)
+      end
+  end.
+
+Fixpoint mrun_store_first (limit : N) (s : mstate) (evs : list mev) : list outcome :=
+  match evs with
+  | [] => []
+  | e :: tl => let '(s1, o) := mstep_store_first limit s e in o :: mrun_store_first limit s1 tl
+  end.
+
+Example store_first_refuted :
+  let evs := [FastLoad 1 10; LockSection 1; FastLoad 2 20; LockSection 2; FastLoad 3 20] in
+  mrun_store_first 1 minit evs = [Pending; Routed 10; Pending; Refused; Routed 20] /\
+  snd (mrun 1 minit evs) = [Pending; Routed 10; Pending; Refused; Pending].
+Proof. split; vm_compute; reflexivity. Qed.
